@@ -115,10 +115,10 @@ theorem rgbFields_opened : ∀ (l : List (SCall × Option Writer.Op × Rgb)), (r
 theorem rgbFields_good : ∀ (l : List (SCall × Option Writer.Op × Rgb)), (∀ x ∈ l, x.1.Valid) → (rgbFields l).Good
   | [], _ => trivial
   | (k, o, c) :: r, h => by
-    refine ⟨h (k, o, c) (by simp), valid_of_safe _ (by simp [rgbBytes]) (by decide +kernel), rfl, ?_,
+    refine ⟨scall_valid_validX _ (h (k, o, c) (by simp)), valid_of_safe _ (by simp [rgbBytes]) (by decide +kernel), rfl, ?_,
       rgbFields_good r (fun x hx => h x (by simp [hx]))⟩
-    simp only [rgbVal, GVal.Good, rgbRest, SCall.Valid]
-    cases c.a <;> simp [GVals.Good, GVal.Good, SCall.Valid]
+    simp only [rgbVal, GVal.Good, rgbRest, SCall.ValidX]
+    cases c.a <;> simp [GVals.Good, GVal.Good, SCall.ValidX]
 
 end Jomini.Writer
 
